@@ -5,9 +5,15 @@
    SearchTotal.v / FuelFacts.v) -- the only way to `None` left in the model is a zero-length table (division by zero in the slot
    index: the setoption handlers clamp the size to >= 1 MB).  PARTIAL by nature: arithmetic traps inside the Rust code, the real
    stack depth (the bound is a recursion depth of the model, tens of thousands in the worst case of mutual checks), memory and OS
-   behaviour are covered by running both binaries on generated scripts. *)
+   behaviour are covered by running both binaries on generated scripts.
+   SESSION LEVEL (proofs/SessionInv.v): along EVERY script the state of the command loop stays in the invariant SessInv (position in
+   the domain D, table scores bounded, table length = the slots of the Hash option (so never zero), Hash within 1..4096, the
+   position's Chess960 flag = the option's), starting from the state phase 1 hands over for any sequence of setoption lines;
+   the only command that can panic is `position` with a FEN the parser rejects, at every point of every script; the side
+   condition is on the FEN text of `position` lines only (accepted and in D: the parser accepts some retro-inconsistent
+   en-passant squares outside D, DESIGN section 11) -- scripts whose position lines say `startpos` need no condition at all. *)
 From Coq Require Import NArith ZArith List Bool String.
-From Rawr Require Import Consts Bits Magic Position MoveGen MakeMove Fen Eval TT Search Uci UciFacts MakeStages Closure MenCount EpRetro SearchTotal FuelFacts.
+From Rawr Require Import Consts Bits Magic Position MoveGen MakeMove Fen Eval TT Search Uci UciFacts MakeStages Closure MenCount EpRetro SearchTotal FuelFacts SearchBound SessionInv.
 Import ListNotations.
 Local Open Scope N_scope.
 
@@ -36,8 +42,46 @@ Proof. exact negamax_total_const. Qed.
 Theorem C15_quiescence_returns : forall p st a b ply fuel, Inv16R p -> (32 < fuel)%nat -> qsearch fuel p st a b ply <> None.
 Proof. exact qsearch_total_33. Qed.
 
+Theorem C15_session_starts_in_the_invariant : forall lines s ready rest,
+  phase1 init_state lines = Some (s, ready, rest) ->
+  SessInv (mkU (u_pos s) (u_hist s) (tt_resize (u_tt s) (u_hash s)) (u_hash s) (u_frc s)).
+Proof. exact init_inv. Qed.
+
+Theorem C15_every_command_keeps_the_invariant : forall mode s l s' o,
+  SessInv s -> Uci.step mode s l = Cont s' o -> PosLineOK mode s l -> SessInv s'.
+Proof. exact step_inv. Qed.
+
+Theorem C15_every_reached_state_is_in_the_invariant : forall mode lines s s',
+  SessInv s -> script_dom mode s lines -> Reached mode s lines s' -> SessInv s'.
+Proof. exact reached_inv. Qed.
+
+Theorem C15_session_never_panics : forall mode lines s out,
+  SessInv s -> script_ok mode s lines -> forall site, phase2 mode s lines out <> Panic site.
+Proof. exact phase2_no_panic. Qed.
+
+Theorem C15_whole_session_never_panics : forall mode lines,
+  (forall s ready rest, phase1 init_state lines = Some (s, ready, rest) -> script_ok mode (start_state s) rest) ->
+  forall site, run_session mode lines <> Panic site.
+Proof. exact run_session_safe. Qed.
+
+(* unconditional: scripts whose position lines all say startpos *)
+Theorem C15_startpos_sessions_never_panic : forall mode lines,
+  Forall startpos_line lines -> forall site, run_session mode lines <> Panic site.
+Proof. exact run_session_startpos_safe. Qed.
+
+(* in every reached state the table has at least one slot: the search cannot divide by zero in the slot index *)
+Theorem C15_table_never_empty : forall s, SessInv s -> t_len (u_tt s) <> 0.
+Proof. exact sess_table_nonempty. Qed.
+
 Print Assumptions C15_step_no_panic_unless_position.
 Print Assumptions C15_position_panics_iff_fen_rejected.
 Print Assumptions C15_root_search_returns.
 Print Assumptions C15_node_search_returns.
 Print Assumptions C15_quiescence_returns.
+Print Assumptions C15_session_starts_in_the_invariant.
+Print Assumptions C15_every_command_keeps_the_invariant.
+Print Assumptions C15_every_reached_state_is_in_the_invariant.
+Print Assumptions C15_session_never_panics.
+Print Assumptions C15_whole_session_never_panics.
+Print Assumptions C15_startpos_sessions_never_panic.
+Print Assumptions C15_table_never_empty.
